@@ -47,10 +47,10 @@ impl AuthorizationType {
         }
     }
 
-//@fn rodbus/src/server/task.rs | AuthorizationType::check_authorization | tags=C08
+//@fn rodbus/src/server/task.rs | AuthorizationType::check_authorization | tags=C02,C08
 //@|    ensures handler.may_answer(spec_auth_call(unit_id, request@), role@, r),
 
-//@fn rodbus/src/server/task.rs | AuthorizationType::is_authorized | tags=C08
+//@fn rodbus/src/server/task.rs | AuthorizationType::is_authorized | tags=C02,C08
 //@|    ensures self.may_decide(unit_id, request@, r),
 }
 
